@@ -29,6 +29,7 @@ type freshCtx struct {
 	busy  map[types.Object]bool
 	depth int
 	used  map[string]bool // assumptions used (A-CODEC-FRESH ...)
+	spine bool            // freshspine: only the returned container (slice/map backing store) must be new, its elements may alias
 	why   string
 }
 
@@ -83,8 +84,8 @@ func (c *freshCtx) typeOf(e ast.Expr) types.Type {
 }
 
 // freshResult decides the `fresh rK` obligation of decl.
-func (E *Engine) freshResult(p *packages.Package, decl *ast.FuncDecl, k int) (bool, string, []string) {
-	c := &freshCtx{E: E, p: p, info: p.TypesInfo, decl: decl, param: map[types.Object]bool{}, busy: map[types.Object]bool{}, used: map[string]bool{}}
+func (E *Engine) freshResult(p *packages.Package, decl *ast.FuncDecl, k int, spine bool) (bool, string, []string) {
+	c := &freshCtx{E: E, p: p, info: p.TypesInfo, decl: decl, param: map[types.Object]bool{}, busy: map[types.Object]bool{}, used: map[string]bool{}, spine: spine}
 	ok := c.funcFresh(decl, k)
 	var used []string
 	for u := range c.used {
@@ -182,6 +183,9 @@ func (c *freshCtx) expr(e ast.Expr) bool {
 	case *ast.BasicLit:
 		return true
 	case *ast.CompositeLit:
+		if c.spine {
+			return true // a new container; what it holds may alias
+		}
 		for _, el := range x.Elts {
 			v := el
 			if kv, ok := el.(*ast.KeyValueExpr); ok {
@@ -244,6 +248,9 @@ func (c *freshCtx) expr(e ast.Expr) bool {
 		}
 		if v.Parent() == c.p.Types.Scope() || v.Pkg() != c.p.Types {
 			return c.fail("package-level variable %s", x.Name)
+		}
+		if c.isParamOf(o) && c.spine {
+			return true // the caller's own argument handed back: no new sharing is created
 		}
 		if c.isParamOf(o) {
 			return c.fail("may share memory with parameter %s (type %s is not pointer-free)", x.Name, o.Type())
@@ -549,6 +556,9 @@ func (c *freshCtx) call(call *ast.CallExpr, k int) bool {
 			case "new", "make":
 				return true
 			case "append":
+				if c.spine {
+					return len(call.Args) == 0 || c.expr(call.Args[0])
+				}
 				for i, a := range call.Args {
 					if i == 0 {
 						if !c.expr(a) {
